@@ -27,15 +27,20 @@ import re
 META = {
  "engine": "tla-metachain",
  "text": "TLC exhausts MetaChain.tla (put / tombstone / delete / persist with nmerge and the lastMod filter / reopen; "
-         "2-3 keys, maxChain 2-3 as a spec constant, up to 6-8 writes, 1-2 reopens) for: reading the chain back yields "
-         "exactly the persisted live entries, the in-memory chain equals the file chain, bounded chain, the lastMod "
-         "filter is sound; then random and scripted executions of the REAL hamt.Hamt/Chain (driver-chosen colliding "
-         "hashes down to overflow nodes, main line + side branches of versions) are validated by TLC: Get/All of "
-         "every retained version after every action against the model map, ReadChain(WriteChain) = live entries, "
-         "reopen = persisted entries; the same persist cycles through a real database (create/alter/rename/drop "
-         "tables and views, inserts, Persist, ReadState, close/reopen)",
- "note": "trusts TLC, the Go test item type of the driver (its Write/read encoding), heap stor instead of mmap; "
-         "chain structure conformance (offs, ages, clock, chunk contents) is checked too but is not a verdict",
+         "2-3 keys, maxChain 2-3 as a spec constant, 6-9 writes, 1-2 reopens) for: reading the chain back yields exactly "
+         "the live entries as of the last persist, the in-memory chain equals the file chain, the chain is bounded, the "
+         "lastMod filter is sound; and HamtTrie.tla (Mutable / with / without / pullUp / Freeze on a shared node heap, "
+         "up to 3 versions alive, 4-5 keys colliding on every level down to overflow nodes) for: every version is "
+         "exactly its map through Get and All, frozen versions never change, nodes writable in place are private. "
+         "Random and scripted executions of the REAL hamt.Hamt/Chain (driver-chosen colliding hashes, main line + side "
+         "branches of versions, clock > 100, chains of maxChain chunks) are then validated by TLC: Get/All of every "
+         "retained version after every action against the model map, ReadChain(WriteChain(h)) = live entries of h, "
+         "reopen = entries as of the last write; and the same persist cycles through a real database (create / alter / "
+         "rename / drop tables and views, inserts incl. transactions that straddle a persist, Persist, ReadState, "
+         "close + reopen): tables, infos (row counts) and views of the live state, the file and the reopened database",
+ "note": "trusts TLC, the driver's test item type (its Write/read encoding) at the hamt level, heap stor instead of "
+         "mmap files; conformance of the chain structure (chunk contents, offs, ages, clock) with MetaChain!WriteChain "
+         "is checked on every write but a difference is reported as exit 2 (model drift), not as a violation",
  "technique": "TLA+ model checking (TLC) + trace validation of recorded executions of the real code",
 }
 
@@ -54,6 +59,7 @@ def model_check(ctx):
         ctx.tlc_mc("MC_MetaChain.tla", "MetaChain_thorough.cfg", timeout=1500)
         ctx.tlc_mc("MC_MetaChain.tla", "MetaChain_thorough3.cfg", timeout=1500)
         ctx.tlc_mc("MC_MetaChain.tla", "MetaChain_thorough3b.cfg", timeout=1500)
+        ctx.tlc_mc("MC_MetaChain.tla", "MetaChain_thorough3c.cfg", timeout=1500)
     # anti-vacuity: with the F7 behaviour (emptied flatten keeps the old chain) the model must fail
     ctx.tlc_mc("MC_MetaChain.tla", "MetaChain_dev_f7.cfg", timeout=300,
                expect_violation="ReopenSeesPersisted", count=False)
@@ -79,10 +85,8 @@ def conformance(ctx):
         trace = ctx.work + "/metachain.ndjson"
         nh, ndb = (150, 400) if ctx.thorough() else (24, 70)
         rc, out, summ = ctx.driver(drv, [trace, nh, ndb], timeout=1500)
-        # vacuity guard: the driver must really have exercised the code
-        if rc != 0 or summ.get("writes", 0) < 20 * nh or summ.get("dbops", 0) < 8 * ndb \
-                or summ.get("maxchain", 0) < 7 or summ.get("deletes", 0) < 5 * nh:
-            raise ctx_infra("metachain driver did too little (rc=%s): %s\n%s" % (rc, summ, out[-1500:]))
+        if rc != 0 or not summ:
+            raise ctx_infra("metachain driver failed (rc=%s):\n%s" % (rc, out[-2000:]))
         ctx.sample_trace_lines(trace, 8)
     res = ctx.tlc_trace("TraceMetaChain.tla", "TraceMetaChain.cfg", trace, timeout=1200)
     tlcout = res.get("out", "")
@@ -106,6 +110,11 @@ def conformance(ctx):
             ctx.log("%d scenarios rejected in total (lines %s%s)" % (nbad, bad[:40], " ..." if nbad > 40 else ""))
         ctx.report_rejection(trace, {"line": bad[0], "reason": "no spec action explains trace line %d" % bad[0]})
         return
+    # vacuity guard (only when nothing was rejected: scenarios end early after a rejection):
+    # the driver must really have exercised the code
+    if summ and (summ.get("writes", 0) < 20 * nh or summ.get("dbops", 0) < 8 * ndb
+                 or summ.get("maxchain", 0) < 7 or summ.get("deletes", 0) < 5 * nh):
+        raise ctx_infra("metachain driver did too little: %s" % summ)
     d = re.search(r'"DRIFT",\s*(\d+)', tlcout)
     if d and int(d.group(1)) != 0:
         line = int(d.group(1))
